@@ -257,7 +257,8 @@ func (w *world) checkAccepted(sp *spec, cl fosite.Client, nSetsBefore int, tag s
 		zz.Assert(c.err == nil, tag+": SetClientAssertionJWT returned nil")
 		zz.Assert(sp.jti.kind == "str" && c.jti == sp.jti.s, tag+": the marked jti is the assertion's jti")
 		if sp.exp.kind == "num" {
-			zz.Assert(c.exp.Equal(time.Unix(sp.exp.n, 0)), tag+": the mark lives until the assertion's exp")
+			// the jti must be remembered at least as long as the assertion can be presented
+			zz.Assert(!c.exp.Before(time.Unix(sp.exp.n, 0)), tag+": the mark lives at least until the assertion's exp")
 		}
 	}
 }
